@@ -155,7 +155,12 @@ func execTime(a []string) (string, string) {
 	out, v := doTime(a)
 	// lateness is a wall-clock measurement: a machine busy with other checks can delay one run by more than the allowance.
 	// A call that really outlives its deadline does so on every run, so a late run is confirmed twice before it is reported.
-	for i := 0; i < 2 && (strings.Contains(out, "late=1") || strings.Contains(out, "late2=1")); i++ {
+	// (the same holds for the control runs against a well-behaved BMC: on a loaded machine a reply can miss its attempt's
+	// timeout, which legitimately fails an in-session command)
+	flaky := func() bool {
+		return strings.Contains(out, "late=1") || strings.Contains(out, "late2=1") || (len(a) > 3 && a[3] == "none" && !strings.HasPrefix(out, "res=ok"))
+	}
+	for i := 0; i < 2 && flaky(); i++ {
 		out, v = doTime(a)
 	}
 	timeCacheMu.Lock()
